@@ -432,7 +432,7 @@ def gate_cases(rng, tier):
 def gen_cases(rng, tier):
     yield from boundary_cases(rng, tier)
     yield from gate_cases(rng, tier)
-    yield from grid_cases(rng, 3 if tier == "quick" else 100)
+    yield from grid_cases(rng, 6 if tier == "quick" else 100)
     if tier == "thorough":
         for _ in range(6):
             yield from boundary_cases(rng, tier)
@@ -487,7 +487,7 @@ def replay_chunks(rep: Report, res, cs: int, use_default: bool) -> int:
         real = real_chunks(r["L"], None if use_default else cs)
         n += 1
         rep.evaluations += 1
-        if n == 1 or r["L"] == 2 * cs:
+        if real == model and (n == 1 or r["L"] == 2 * cs):
             # tampered edge: an altered model sequence must NOT compare equal to the real one
             bad = [dict(x) for x in model]
             bad[-1]["m"] = 1 - bad[-1]["m"]
@@ -659,9 +659,9 @@ def main(rep: Report, replay: dict | None) -> None:
                                            timeout=900, coverage=True, deadlock=False, seed=rep.seed)
         # the invariants must bite: regressions written into the model have to be rejected
         muts = [("MC_Gfx", "MC_Gfx_mut1.cfg"), ("MC_Gfx", "MC_Gfx_mut2.cfg")]
-        if thorough:
-            muts += [("MC_GfxRender", f"MC_GfxRender_mut_{v}.cfg") for v in
-                     ("cell-height-plus-1", "bpp-plus-1", "gate-ignores-palette", "whole-at-render-size")]
+        muts += [("MC_GfxRender", f"MC_GfxRender_mut_{v}.cfg") for v in
+                 (("cell-height-plus-1", "bpp-plus-1", "gate-ignores-palette", "whole-at-render-size")
+                  if thorough else ("cell-height-plus-1", "bpp-plus-1"))]
         for spec, cfg in muts:
             futs["mut:" + cfg] = pool.submit(tlc.run, spec, cfg, workers=2, timeout=600,
                                              deadlock=False, check=False)
@@ -674,6 +674,7 @@ def main(rep: Report, replay: dict | None) -> None:
 
     phase = {"render+project": 0.0, "trace-validation": 0.0}
     bc: dict[str, int] = {}
+    actions: dict[str, int] = {}
     rejected = 0
     block = 4000
     for b0 in range(0, len(cases), block):
@@ -745,6 +746,12 @@ def main(rep: Report, replay: dict | None) -> None:
                 raise tlc.MachineryError(f"only {len(canaries)} corrupted-trace canaries could be built")
         for key, n in classify_boundaries(traces).items():
             bc[key] = bc.get(key, 0) + n
+        for tr in traces:  # how often each action of Trace_Gfx fired (vacuity)
+            for e in tr["ev"]:
+                a = ("ITermImage" if tr["hdr"]["style"] == "iterm2" else
+                     "KittyDelete" if e["a"] == "d" else "KittyChunk")
+                actions[a] = actions.get(a, 0) + 1
+            actions["Finish"] = actions.get("Finish", 0) + 1
         if b0 == 0:
             for tr, case in list(zip(traces, owners))[:: max(1, len(traces) // 4)][:4]:
                 rep.sample({"case": case, "hdr": tr["hdr"],
@@ -753,6 +760,11 @@ def main(rep: Report, replay: dict | None) -> None:
     rep.extra["corrupted_traces_rejected"] = rejected
     rep.extra["kitty_payload_boundary_classes"] = bc
     rep.extra["renders"] = len(cases)
+    rep.extra["Trace_Gfx_actions"] = actions
+    if not replay and not rep.violations:
+        for a in ("KittyDelete", "KittyChunk", "ITermImage", "Finish"):
+            if not actions.get(a):
+                raise tlc.MachineryError(f"Trace_Gfx action {a} never fired: {actions}")
     if not replay and not rep.violations:
         for need in ("raw:L=k*CS", "raw:L=k*CS-eps", "raw:L=k*CS+eps", "raw:L<CS", "raw:L=k*CS+r",
                      "z:L=k*CS", "z:L=k*CS-eps", "z:L=k*CS+eps"):
